@@ -7,7 +7,10 @@ decorator, real Channel/AsyncChannel operations and the real transports' read() 
 that go silent at an enumerated point; the model's prediction (outcome, message, transport state, handler,
 timer, threads, asyncio tasks, lock, whether a following operation on a connection left open completes) is
 recomputed by vm_compute and must agree; an independent oracle decides the property on the observations
-(asyncio: tasks / blocked reads left behind, and that the following operation receives its own output)."""
+(asyncio: tasks / blocked reads left behind, and that the following operation receives its own output).
+Histories (`timeout-history`): 2-5 decorated calls one after the other on ONE transport + channel object, each from the
+main thread or a fresh non-main thread (both orders), judged call by call as if each were the only one; the model's
+run_hist (mechanism of call n = select_mech of call n's context) is recomputed on every history."""
 import json
 import os
 
@@ -243,17 +246,143 @@ def observe(case, tries=3):
 
 
 # --------------------------------------------------------------------------------------------
+# histories: several decorated calls on ONE connection object, from the main thread and from other threads
+# --------------------------------------------------------------------------------------------
+def hist_call_case(hist, i, timer_before=None):
+    """call i of a history as a case of its own: what the property says about it must not depend on what was run
+    before it on the same object (the oracle below judges every call by this case alone)"""
+    call = hist["calls"][i]
+    c = mk(stack="sync", level=call["level"], cls=hist["cls"], wrapped=(call["level"] == "tleaf"),
+           no_term=bool(call.get("no_term")), lock=bool(hist.get("lock")), steps=[tuple(call["step"])],
+           prev_handler=hist.get("prev_handler", "default"), main_thread=(call["thread"] == "main"),
+           windows=bool(call.get("windows")), fname=call.get("fname"))
+    c["t_tr" if call["level"] == "tleaf" else "t_ops"] = call["T"]
+    if timer_before and timer_before[0] > 0:
+        c["prev_timer"] = list(timer_before)      # what was pending when THIS call started
+    return c
+
+
+def hist_in_known_region(hist):
+    for i in range(len(hist["calls"])):
+        c = hist_call_case(hist, i)
+        if in_known_region(c):
+            return in_known_region(c)
+        if mech_of(c) == "thread" and last_kind(c) == "stall" and limit_of(c):
+            return "env"          # a read that close() does not end: the pool's join waits (environment assumption)
+        if last_kind(c) in ("stall", "stall_closed") and not limit_of(c):
+            return "hang"         # no limit: waits for ever by definition, nothing can follow
+    return None
+
+
+def oracle_history(hist, obs):
+    f = []
+    got = obs["calls"]
+    if len(got) != len(hist["calls"]):
+        f.append(("outcome", "%d of %d calls of the history were made" % (len(got), len(hist["calls"]))))
+    for i, o in enumerate(got):
+        c = hist_call_case(hist, i, o.get("timer_before"))
+        call = hist["calls"][i]
+        before = ", ".join("%s:%s" % (x["thread"], x["step"][0]) for x in hist["calls"][:i]) or "nothing"
+        for k, txt in oracle(c, o):
+            f.append((k, "call %d (%s thread, %s T=%s %s; before it on the same object: %s): %s" % (
+                i + 1, call["thread"], call["level"], call["T"], call["step"][0], before, txt)))
+        if o.get("mech_seen") is None and (o["out"] or {}).get("cls") not in ("ScrapliTimeout",):
+            # the wrapped call was never entered although the connection was open
+            f.append(("outcome", "call %d (%s thread): the decorated function never ran its body: %r" % (
+                i + 1, call["thread"], o["out"])))
+    return f
+
+
+def observe_history(hist, tries=3):
+    obs = impl.run_history(hist)
+    fails = oracle_history(hist, obs)
+    n = 1
+    while fails and all(k == "timing" for k, _ in fails) and n < tries:
+        obs2 = impl.run_history(hist)
+        f2 = oracle_history(hist, obs2)
+        n += 1
+        if not f2:
+            return hist, obs2, []
+        obs, fails = obs2, f2
+    return hist, obs, fails
+
+
+HIST_CLASSES = ["ScriptedTransport", "ParamikoTransport", "Ssh2Transport", "SystemTransport", "TelnetTransport"]
+
+
+def _hcall(thread, level, T, step, no_term=False, windows=False, fname="get_prompt"):
+    return dict(thread=thread, level=level, T=T, step=list(step), no_term=no_term, windows=windows,
+                fname=fname if level == "cleaf" else None)
+
+
+def _hist_label(h):
+    return "history %s: %s" % (h["cls"], " -> ".join("%s/%s/%s%s" % (
+        c["thread"], c["level"], c["step"][0], "" if c["T"] else "/T=0") for c in h["calls"]))
+
+
+def corpus_histories():
+    """both orders (main thread first / worker thread first) x a class name on either side of the mechanism split x
+    with and without a stall, transport read and channel method; independent of the seed"""
+    out = []
+    for cls in ("ParamikoTransport", "SystemTransport"):
+        for first, second in (("main", "worker"), ("worker", "main")):
+            for lv1, lv2 in (("cleaf", "cleaf"), ("cleaf", "tleaf")):
+                for last in (("stall_closed",), ("ret", 0, 6)):
+                    if last[0] == "ret" and lv2 == "tleaf":
+                        continue
+                    out.append(dict(suite="history", cls=cls, lock=(lv2 == "cleaf" and first == "main"), prev_handler="user",
+                                    prev_timer=[50.0, 0.0] if first == "main" else None,
+                                    calls=[_hcall(first, lv1, 0.1, ("ret", 0, 2)), _hcall(second, lv2, 0.1, last)]))
+    # there and back again, a timeout in the middle (the connection is opened again), a call without a limit first
+    out.append(dict(suite="history", cls="Ssh2Transport", lock=False, prev_handler="user", prev_timer=None,
+                    calls=[_hcall("main", "tleaf", 0.0, ("ret", 0, 1)), _hcall("worker", "cleaf", 0.05, ("stall_closed",)),
+                           _hcall("main", "cleaf", 0.05, ("stall",), no_term=True, fname="send_input"),
+                           _hcall("worker", "tleaf", 0.05, ("exc", 0, 3))]))
+    out.append(dict(suite="history", cls="ScriptedTransport", lock=True, prev_handler="ign", prev_timer=[50.0, 0.0],
+                    calls=[_hcall("worker", "tleaf", 0.05, ("ret", 0, 4)), _hcall("main", "tleaf", 0.05, ("stall",)),
+                           _hcall("worker", "cleaf", 0.05, ("stall_closed",), fname="frobnicate"),
+                           _hcall("main", "cleaf", 0.05, ("ret", 0, 5))]))
+    for h in out:
+        h["label"] = _hist_label(h)
+    return out
+
+
+def gen_history(rng):
+    cls = rng.choice(HIST_CLASSES)
+    windows = rng.random() < 0.08
+    n = rng.randint(2, 5)
+    first = rng.choice(["main", "worker"])
+    calls = []
+    for i in range(n):
+        # mostly alternating, sometimes the same thread twice in a row
+        thread = first if i == 0 else (calls[-1]["thread"] if rng.random() < 0.25 else
+                                       ("worker" if calls[-1]["thread"] == "main" else "main"))
+        level = rng.choice(["tleaf", "cleaf"])
+        T = rng.choice([0.05, 0.05, 0.1, 0.075, 0.0])
+        r = rng.random()
+        thread_mech = cls in THREAD_CLASSES or windows or thread != "main"
+        no_term = rng.random() < 0.3
+        if r < 0.4 and T:
+            step = ("stall_closed",) if thread_mech else (rng.choice(["stall", "stall_closed"]),)
+            if thread_mech:
+                no_term = False           # (the known finding's region)
+        elif r < 0.5:
+            step = ("exc", 0, rng.randint(1, 9))
+        else:
+            step = ("ret", 0, rng.randint(0, 9))
+        calls.append(_hcall(thread, level, T, step, no_term=no_term, windows=windows, fname=rng.choice(impl.LEAF_NAMES)))
+    h = dict(suite="history", cls=cls, lock=rng.random() < 0.5, calls=calls)
+    h.update(prev_state(rng, allow_short=False, T=0.1))
+    h["label"] = _hist_label(h)
+    return h
+
+
+# --------------------------------------------------------------------------------------------
 # model side
 # --------------------------------------------------------------------------------------------
-HEADER = """From Verif Require Import Bytes Timeout.
+HEADER_COMMON = """From Verif Require Import Bytes Timeout.
 From Gen Require Import Gen_Timeout.
 Inductive iout := IRet (v : option N) | IExc (code : N) (msg : bytes) (val : N) | IHang.
-Record icase := mkI {
-  i_coro : bool; i_cls : bytes; i_windows : bool; i_main : bool; i_chan : bool;
-  i_tops : N; i_ttr : N; i_fo : bytes; i_wrapped : bool; i_poll : N; i_locked : bool; i_nt : bool;
-  i_reads : list leaf; i_hnd : hnd; i_delay : N; i_ival : N;
-  o_out : iout; o_elapsed : N; o_alive : bool; o_restored : bool; o_tclass : N; o_rem : N; o_ival : N;
-  o_left : nat; o_lock : bool; o_tasks : nat; i_fol : list leaf; o_fol : N }.
 Definition hnd_same (a b : hnd) : bool :=
   match a, b with
   | HDefault, HDefault | HIgnore, HIgnore => true
@@ -270,6 +399,48 @@ Definition exc_match (e : exc) (code : N) (msg : bytes) (val : N) : bool :=
   end.
 Definition tclass (s : pstate) : N :=
   if deadline s =? 0 then 0 else if deadline s <=? now s + 1 then 2 else 1.
+"""
+
+# histories: the model's run_hist over the calls of the history (mechanism of every call from its own context), compared
+# call by call with what the one transport / channel object did; ho_mech = the mechanism seen in force from inside the
+# wrapped call (0 none, 1 signal, 2 worker thread, 9 the body never ran)
+HEADER_HIST = HEADER_COMMON + """
+Record hobs := mkO { ho_out : iout; ho_elapsed : N; ho_alive : bool; ho_restored : bool; ho_tclass : N;
+                     ho_left : nat; ho_lock : bool; ho_mech : N }.
+Record hcase := mkHC { hc_cls : bytes; hc_hnd : hnd; hc_delay : N; hc_ival : N; hc_calls : list (hcall * hobs) }.
+Definition msg_of (fname : bytes) : bytes := timeout_message gen_msg_map gen_msg_default fname.
+Definition mech_code (T : N) (m : mech) : N :=
+  if T =? 0 then 0 else match m with MSignal => 1 | MThread => 2 | MAsync => 3 end.
+Fixpoint chk_calls (h0 : hnd) (t : N) (rs : list (mech * result)) (cs : list (hcall * hobs)) : bool :=
+  match rs, cs with
+  | [], [] => true
+  | (m, r) :: rs', (c, o) :: cs' =>
+      let s' := rst r in
+      let rest :=
+        (ho_elapsed o <=? (now s' - t) + 1000) && Bool.eqb (topen s') (ho_alive o)
+        && Bool.eqb (hnd_same (handler s') h0) (ho_restored o) && (tclass s' =? ho_tclass o)
+        && Nat.eqb (workers s') (ho_left o) && Bool.eqb (lock s') (ho_lock o)
+        && (mech_code (h_T c) m =? ho_mech o) in
+      (match out r, ho_out o with
+       | Hang, IHang => true
+       | Returned v, IRet ov => (match ov with Some x => x =? v | None => true end) && rest
+       | Raised e, IExc code msg val => exc_match e code msg val && rest
+       | _, _ => false
+       end) && chk_calls h0 (now s') rs' cs'
+  | _, _ => false
+  end.
+Definition chk_hist (c : hcase) : bool :=
+  let s := mkP 1000 (hc_hnd c) (if hc_delay c =? 0 then 0 else 1000 + hc_delay c) (hc_ival c) 0 true false 0 in
+  chk_calls (hc_hnd c) (now s) (run_hist gen_thread_classes false (hc_cls c) (map fst (hc_calls c)) s) (hc_calls c).
+"""
+
+HEADER = HEADER_COMMON + """
+Record icase := mkI {
+  i_coro : bool; i_cls : bytes; i_windows : bool; i_main : bool; i_chan : bool;
+  i_tops : N; i_ttr : N; i_fo : bytes; i_wrapped : bool; i_poll : N; i_locked : bool; i_nt : bool;
+  i_reads : list leaf; i_hnd : hnd; i_delay : N; i_ival : N;
+  o_out : iout; o_elapsed : N; o_alive : bool; o_restored : bool; o_tclass : N; o_rem : N; o_ival : N;
+  o_left : nat; o_lock : bool; o_tasks : nat; i_fol : list leaf; o_fol : N }.
 Definition model (c : icase) : result :=
   let m := select_mech gen_thread_classes (i_coro c) (i_cls c) (i_windows c) (i_main c) in
   let s := mkP 1000 (i_hnd c) (if i_delay c =? 0 then 0 else 1000 + i_delay c) (i_ival c) 0 true false 0 in
@@ -391,6 +562,39 @@ def case_term(case, obs):
         str(follow_code(obs)),
     ]
     return "(mkI " + " ".join(f if f[0] in "([" or f.isalnum() or f.endswith("%nat") else "(%s)" % f for f in fields) + ")"
+
+
+MECH_CODE = {"none": 0, "signal": 1, "thread": 2, None: 9}
+HND = {"default": "HDefault", "ign": "HIgnore", "user": "(HUser 7)"}
+
+
+def _iout(o):
+    out = o["out"] or {}
+    if o["hang"]:
+        return "IHang"
+    if out.get("kind") == "ret":
+        return "(IRet %s)" % ("(Some %d)" % out["val"] if "val" in out else "None")
+    return "(IExc %d %s %d)" % (EXC_CODE.get(out.get("cls"), 9), coq_bytes(out.get("msg", "").encode("latin-1", "replace")),
+                                out.get("val", 0) or 0)
+
+
+def hist_term(hist, obs):
+    pairs = []
+    for call, o in zip(hist["calls"], obs["calls"]):
+        fo = "read" if call["level"] == "tleaf" else call["fname"]
+        leaf = leaf_terms({"steps": [tuple(call["step"])], "stack": "sync", "level": call["level"]})[0]
+        hc = "(mkH %s %s %s %d (msg_of %s) (%s))" % (
+            coq_bool(bool(call.get("windows"))), coq_bool(call["thread"] == "main"), coq_bool(bool(call.get("no_term"))),
+            ms(call["T"]), coq_bytes(fo.encode()), leaf)
+        rem = o["timer_after"][0]
+        tcl = 2 if o["fired"] else 1 if rem > 0 else 0
+        ho = "(mkO %s %d %s %s %d %d%%nat %s %d)" % (
+            _iout(o), ms(o["elapsed"]), coq_bool(o["alive"]), coq_bool(o["handler_restored"]), tcl, o["leftover_threads"],
+            coq_bool(o["lock_held"]), MECH_CODE.get(o.get("mech_seen"), 9))
+        pairs.append("(%s, %s)" % (hc, ho))
+    pt = hist.get("prev_timer") or [0, 0]
+    return "(mkHC %s %s %d %d %s)" % (coq_bytes(hist["cls"].encode()), HND[hist.get("prev_handler", "default")],
+                                      ms(pt[0]), ms(pt[1]), coq_list(pairs))
 
 
 # --------------------------------------------------------------------------------------------
@@ -611,6 +815,57 @@ def _replay_dict(case, obs, fails):
             "rerun": "VERIF_REPO=%s ./check C07 --replay <this file>" % common.REPO}
 
 
+def _replay_hist(hist, obs, fails):
+    return {"suite": "timeout-history", "case": hist, "observed": obs, "failures": [t for _, t in fails],
+            "rerun": "VERIF_REPO=%s ./check C07 --replay <this file>" % common.REPO}
+
+
+def _hist_stats(dist, hist, obs):
+    d = dist["histories"]
+    d["count"] += 1
+    n = len(hist["calls"])
+    d["by_length"][str(n)] = d["by_length"].get(str(n), 0) + 1
+    d["by_class"][hist["cls"]] = d["by_class"].get(hist["cls"], 0) + 1
+    d["first_thread"][hist["calls"][0]["thread"]] += 1
+    for i, call in enumerate(hist["calls"]):
+        d["calls"] += 1
+        c = hist_call_case(hist, i)
+        m = mech_of(c) if call["T"] else "none"
+        d["calls_by_mechanism"][m] = d["calls_by_mechanism"].get(m, 0) + 1
+        stall = call["step"][0] in ("stall", "stall_closed")
+        d["stalls"] += 1 if stall else 0
+        if i and call["thread"] != hist["calls"][i - 1]["thread"]:
+            k = "%s->%s" % (hist["calls"][i - 1]["thread"], call["thread"])
+            d["thread_switches"][k] = d["thread_switches"].get(k, 0) + 1
+            if stall:
+                d["stall_right_after_switch"][k] = d["stall_right_after_switch"].get(k, 0) + 1
+        if i and m != "none":
+            prev = [mech_of(hist_call_case(hist, j)) for j in range(i) if hist["calls"][j]["T"]]
+            if prev and prev[-1] != m:
+                d["mechanism_changes_on_one_object"] += 1
+    d["reopened_after_timeout"] += sum(1 for o in obs["calls"] if o.get("reopened"))
+
+
+def _run_histories(rep, rng, dist, hists):
+    """-> (done, terms, indices failing the oracle)"""
+    done, terms, failing = [], [], []
+    for h in hists:
+        if hist_in_known_region(h):
+            continue
+        hist, obs, fails = observe_history(h)
+        done.append((hist, obs, fails))
+        if len(obs["calls"]) == len(hist["calls"]):
+            terms.append(hist_term(hist, obs))
+        else:
+            terms.append(None)
+        switches = sum(1 for i in range(1, len(hist["calls"])) if hist["calls"][i]["thread"] != hist["calls"][i - 1]["thread"])
+        rep.case(("h", json.dumps({k: v for k, v in hist.items() if k != "label"}, sort_keys=True)), nontrivial=switches > 0)
+        _hist_stats(dist, hist, obs)
+        if fails:
+            failing.append(len(done) - 1)
+    return done, terms, failing
+
+
 def _runtime_suite(rep, dist):
     """real Telnet transport over a loopback socket / real system transport over a pty, peer silent"""
     for kind in ("telnet-loopback", "system-pty"):
@@ -674,6 +929,19 @@ def _search(rep, rng, dist, n):
     for _ in range(12):
         pool.append(gen_nested_async_case(rng))
     rng.shuffle(pool)
+    hists = [gen_history(rng) for _ in range(max(8, n // 6))]
+    for h in hists:
+        if hist_in_known_region(h):
+            continue
+        hist, obs, fails = observe_history(h)
+        rep.case(("search-h", json.dumps(hist, sort_keys=True)), nontrivial=False)
+        dist["search_cases"] += 1
+        if fails:
+            rep.violation("search after a broken obligation: %s: %s" % (hist["label"], "; ".join(t for _, t in fails)),
+                          _replay_hist(hist, obs, fails))
+            found += 1
+            if found >= 3:
+                return found
     for c in pool[:n]:
         if in_known_region(c):
             continue
@@ -714,7 +982,10 @@ def run(rep):
             "prev_timer": {"none": 0, "pending": 0, "pending+interval": 0, "due-during-call": 0}, "stall_points": {},
             "nesting": {}, "hang_cases": 0, "known_replayed": {}, "runtime": {}, "search_cases": 0, "lock_on": 0,
             "asyncio_nested_outer_first": {"no_terminate on": 0, "no_terminate off": 0}, "asyncio_over_real_transport": {},
-            "asyncio_follow_up_run": {}, "asyncio_task_observed": 0}
+            "asyncio_follow_up_run": {}, "asyncio_task_observed": 0,
+            "histories": {"count": 0, "calls": 0, "by_length": {}, "by_class": {}, "first_thread": {"main": 0, "worker": 0},
+                          "calls_by_mechanism": {}, "stalls": 0, "thread_switches": {}, "stall_right_after_switch": {},
+                          "mechanism_changes_on_one_object": 0, "reopened_after_timeout": 0}}
     _known_replays(rep, dist)
     _runtime_suite(rep, dist)
 
@@ -785,10 +1056,31 @@ def run(rep):
             rep.sample({"case": c["label"], "steps": c["steps"][-2:], "t_ops": c["t_ops"], "t_tr": c["t_tr"], "no_term": c["no_term"],
                         "prev_timer": c["prev_timer"], "observed": o})
 
+    # histories: several calls on ONE transport / channel object, main thread and other threads in both orders
+    hists = corpus_histories() + [gen_history(rng) for _ in range(160 if thorough else 18)]
+    hdone, hterms, hfail = _run_histories(rep, rng, dist, hists)
+    for ix in (0, len(hdone) - 1):
+        if 0 <= ix < len(hdone):
+            rep.sample({"case": hdone[ix][0]["label"], "calls": hdone[ix][0]["calls"], "observed": hdone[ix][1]})
+
+    import threading
+    hres = {}
+    hidx = [i for i, x in enumerate(hterms) if x is not None]
+
+    def _eval_hist():
+        hres["r"] = common.eval_cases(rep.workdir, "cases_c07h", HEADER_HIST, [hterms[i] for i in hidx], "chk_hist", shard=400)
+
+    th = threading.Thread(target=_eval_hist)
+    th.start()
     bad, log = common.eval_cases(rep.workdir, "cases_c07", HEADER, terms, "chk", shard=150)
+    th.join()
+    hbad, hlog = hres.get("r", (None, "history evaluation did not run"))
     rep.coverage["correspondence"] = {"suite": "timeout-fault", "cases": len(terms), "distribution": dist,
                                       "model_disagreements": None if bad is None else len(bad),
-                                      "oracle_failures": len(oracle_fail)}
+                                      "oracle_failures": len(oracle_fail),
+                                      "histories": {"suite": "timeout-history", "cases": len(hdone),
+                                                    "model_disagreements": None if hbad is None else len(hbad),
+                                                    "oracle_failures": len(hfail)}}
     rep.coverage["generated_from"] = common.source_hashes(SOURCES)
     rep.coverage["generated"] = info
     rep.rule = ("cases = (stack sync|asyncio) x (how the mechanism is selected: class name, non-main thread, windows flag, main thread) x "
@@ -798,7 +1090,11 @@ def run(rep):
                 "the call); asyncio: channel operation over a decorated read of a scripted or of the real asynctelnet/asyncssh transport "
                 "with the channel limit due first, tasks and blocked reads counted when the call comes back, and on a connection left open "
                 "a following operation (get_prompt / send_input) whose device output must reach it whole; "
-                "non-trivial = the call stalls or runs for a while; distinct = the whole case")
+                "histories = 2-5 decorated calls (transport read / channel method, own limit incl. 0, own NO_TERMINATE) one after "
+                "the other on ONE transport + channel object, each from the main thread or a fresh non-main thread, both orders, class "
+                "names on both sides of the mechanism split, the device answering / raising / going silent, the connection reopened "
+                "after a timeout closed it; every call judged as if it were the only one; "
+                "non-trivial = the call stalls or runs for a while (history: the thread changes between two calls); distinct = the whole case")
 
     reported = 0
     for ix in oracle_fail:
@@ -808,6 +1104,24 @@ def run(rep):
         if rep.violation("%s: %s" % (case["label"], "; ".join(t for _, t in fails)), _replay_dict(case, obs, fails),
                          signature=signature_of(case, fails)):
             reported += 1
+    reported = 0
+    for ix in hfail:
+        hist, obs, fails = hdone[ix]
+        if reported >= 6:
+            break
+        if rep.violation("%s: %s" % (hist["label"], "; ".join(t for _, t in fails)), _replay_hist(hist, obs, fails)):
+            reported += 1
+    if hbad is None:
+        rep.broken.append("correspondence timeout-history (model evaluation failed)")
+        rep.notes.append(hlog)
+    else:
+        wrong = [hidx[i] for i in hbad] + [i for i, x in enumerate(hterms) if x is None]
+        for ix in wrong[:6]:
+            hist, obs, fails = hdone[ix]
+            if fails:
+                continue          # already a violation of the property with a concrete replay
+            rep.broken.append("correspondence timeout-history: model differs from implementation on: %s" % hist["label"])
+            rep.notes.append("disagreement: history=%r observed=%r" % (hist, obs))
     if bad is None:
         rep.broken.append("correspondence timeout-fault (model evaluation failed)")
         rep.notes.append(log)
@@ -840,6 +1154,15 @@ def replay(path):
     if not c:
         print("nothing to replay (no concrete input): %s" % r.get("what"))
         return 1
+    if c.get("suite") == "history" or "calls" in c:
+        hist, obs, fails = observe_history(c)
+        print("history :", json.dumps(hist))
+        for i, o in enumerate(obs["calls"]):
+            print("call %d  :" % (i + 1), json.dumps(o))
+        for _, t in fails:
+            print("FAIL    :", t)
+        print("property holds on this input" if not fails else "property FAILS on this input")
+        return 1 if fails else 0
     c["steps"] = [tuple(s) for s in c["steps"]]
     case, obs, fails = observe(c)
     print("case    :", json.dumps(case))
@@ -864,19 +1187,35 @@ MANIFEST = {
             "answers); the pinned commit's zeroing of ITIMER_REAL is refuted (fixed in ab1ccc2); async_uncancelled_read_left_running (a decorator "
             "that does not hand its own cancellation on to the wrapped call - the model's c_cancel = false - leaves the decorated transport read "
             "running whenever the channel limit falls due first: tasks + 1, state NOT restored; the code as it is, asyncio.wait_for, is "
-            "c_cancel = true). Tie: Gen_Timeout.v (message map, thread class "
+            "c_cancel = true); history_independent (run_hist: any number of decorated calls one after the other on ONE connection object, "
+            "each with its own thread context, limit and NO_TERMINATE setting - the mechanism of call n is select_mech of call n's own "
+            "context, outcome / duration / transport state after call n are what the call alone prescribes (ScrapliTimeout exactly at "
+            "its own limit for a call that cannot complete), handler / timer interval / workers / lock / tasks after every call as "
+            "before the first; under call_ok, which carries the thread + NO_TERMINATE known region) and "
+            "history_cached_selection_refuted (a selection worked out at the first timed call and kept on the object - run_hist_cached, "
+            "NOT the code as it is - uses the signal mechanism for a call from a non-main thread). Tie: Gen_Timeout.v (message map, thread class "
             "names, the 16 decorated functions, defaults, ast shape of the decorator incl. that the asyncio decorate() awaits the wrapped coroutine "
-            "only on the spot or through asyncio.wait_for) regenerated on every run with vm_compute obligations; the "
+            "only on the spot or through asyncio.wait_for; that the sync decorate() itself evaluates, on every call, `<class name of this call's "
+            "transport> in (...) or _IS_WINDOWS or current_thread() is not main_thread()` in front of the worker-thread branch; that no "
+            "function of decorators.py reachable from timeout_wrapper stores into an attribute / subscript / global, calls setattr-like "
+            "or container-mutating methods or is memoised = no state kept between calls) regenerated on every run with vm_compute obligations; the "
             "model is recomputed by vm_compute on every generated case and must agree with the REAL decorator / real channel operations / real "
             "transports' read() over scripted transports (sync and asyncio; asyncio channel operations also over the real asynctelnet / asyncssh "
             "transports with fakes underneath); an independent oracle decides the property on the observations, for asyncio including "
             "asyncio.all_tasks() minus the tasks that existed before (one loop iteration after the call came back), the scripted reads still "
             "blocked at that instant, and - nested limits with the channel limit due first, NO_TERMINATE on - a following get_prompt / "
             "send_input on the connection left open, which must receive every byte the device sends it (none taken by a read issued "
-            "before it) and return its own result. "
+            "before it) and return its own result. Histories: the REAL decorator on ONE scripted transport object + ONE channel object, "
+            "2-5 calls (transport.read / decorated channel method, limit 0 / 0.05-0.1 s, device answers / raises / goes silent) issued "
+            "alternately from the main thread and from fresh non-main threads in both orders, class names on both sides of the "
+            "mechanism split, the connection reopened after a timeout closed it; every call is judged by the oracle as if it were the "
+            "only one (ScrapliTimeout within its limit, transport closed iff NO_TERMINATE off, handler / timer / threads / lock back, "
+            "and the mechanism seen in force from inside the wrapped call - scrapli's SIGALRM handler installed / body running in a "
+            "thread other than the caller's - is the one that applies to THAT call's thread) and compared with run_hist by vm_compute. "
             "OBSERVED ONLY (partial): wall-clock latency (<= limit + 1 s), real signal delivery, real thread scheduling, and that closing a real "
             "transport ends a blocked read (real Telnet over a loopback socket - fixed in 9660fae - and the real system transport over a pty).",
-    "note": "Trusted: Coq kernel + vm_compute; the hand model coq/model/Timeout.v (tied by the correspondence run only: ~200 cases quick, ~1100 "
+    "note": "Trusted: Coq kernel + vm_compute; the hand model coq/model/Timeout.v (tied by the correspondence run only: ~200 cases + ~30 "
+            "histories (~100 calls) quick, ~1100 + ~170 histories "
             "thorough, all stall points of 5 channel operations, timeouts 0 / 0.05-0.3 s / fractional, the mechanism induced by class name, "
             "non-main thread, windows flag); gen/gen_timeout.py (ast reading of decorators.py is syntactic); scripted transports and fakes under "
             "the real transports; CPython signal/threading/asyncio are modelled, not verified. Model assumptions stated as hypotheses, not axioms: "
@@ -885,6 +1224,12 @@ MANIFEST = {
             "the larger of the two observations: new tasks after one loop iteration, scripted reads still blocked at return); of the "
             "following operation the model only predicts that it runs, returns and leaves tasks / lock / transport as they were - WHICH read "
             "receives WHICH device bytes (the swallowed-output observation) and the value the following operation returns are oracle-only. "
+            "Histories: the model's calls are single decorated calls whose body is one read (run_wrapped); real channel operations "
+            "inside a history, the channel lock inside a history (the model's lock flag only changes on Hang) and a history on the asyncio "
+            "stack (no thread context there) are not generated; _IS_WINDOWS is constant within a history; 'no state kept between calls' "
+            "is a syntactic ast fact about decorators.py (state kept by the transports / channels themselves is not looked at), backed "
+            "by the history scenarios. What signal.signal raises outside the main thread is not modelled (select_mech never gives "
+            "MSignal there; the oracle sees the ValueError). "
             "Not modelled: send_input_and_read's "
             "suppress(ScrapliTimeout) / temporary transport timeout (C14's ground), paramiko/ssh2 internal socket timeouts, a coroutine that "
             "swallows CancelledError. Known findings: thread mechanism + NO_TERMINATE_ON_TIMEOUT joins the stalled worker; signal-over-signal "
@@ -893,5 +1238,7 @@ MANIFEST = {
     "technique": "Coq proofs by induction over the reads answered before the stall, per mechanism, with a state invariant (installed handler, "
                  "absolute timer deadline); refutations by vm_compute witnesses; vm_compute correspondence against the real decorator under "
                  "enumerated stall points and fault histories; runtime observers (getsignal/getitimer, threading.enumerate, asyncio.all_tasks, reads "
-                 "in flight, per-read attribution of the device bytes across two consecutive operations, lock, isalive)",
+                 "in flight, per-read attribution of the device bytes across two consecutive operations, lock, isalive); call histories on "
+                 "one connection object across threads with a per-call mechanism observer; induction over the history with the "
+                 "state invariant 'the handler is the user's'",
 }
